@@ -100,12 +100,80 @@ pub fn run(rep: &mut Report, thorough: bool) {
                 combos.push((k, *c, *s));
             }
         }
-        let dims = [dm.len() as u64, combos.len() as u64];
-        sweep_frames(rep, cfg, &format!("dst-mac-{}", tag), "dst MAC in Auth + all 1-bit flips + strangers x eliciting frames x 4 server addresses", product(&dims), |i| {
+        let smacs: [Mac; 4] = [MAC_CLI, cfg.mac, [0xff; 6], [0x01, 0x00, 0x5e, 0x01, 0x02, 0x03]];
+        let dims = [dm.len() as u64, combos.len() as u64, smacs.len() as u64];
+        sweep_frames(rep, cfg, &format!("dst-mac-{}", tag), "dst MAC in Auth + all 1-bit flips + strangers x eliciting frames x 4 server addresses x source MAC {client, the responder's own, broadcast, multicast}", product(&dims), |i| {
             let d = unrank(i, &dims);
             let (k, c, s) = &combos[d[1] as usize];
-            elicit(*k, &dm[d[0] as usize], c, s)
+            let mut fr = elicit(*k, &dm[d[0] as usize], c, s);
+            fr[6..12].copy_from_slice(&smacs[d[2] as usize]);
+            fr
         });
+        if thorough {
+            // 2-bit-flip neighbourhood of every authorised MAC, and every value of each MAC byte
+            let mut dm2: Vec<Mac> = Vec::new();
+            for m in &macs {
+                for a in 0..48 {
+                    for b in a + 1..48 {
+                        let mut x = *m;
+                        x[a / 8] ^= 0x80 >> (a % 8);
+                        x[b / 8] ^= 0x80 >> (b % 8);
+                        dm2.push(x);
+                    }
+                }
+                for pos in 0..6 {
+                    for v in 0..=255u8 {
+                        let mut x = *m;
+                        x[pos] = v;
+                        dm2.push(x);
+                    }
+                }
+            }
+            let dims = [dm2.len() as u64, combos.len() as u64];
+            sweep_frames(rep, cfg, &format!("dst-mac-2flips-{}", tag), "dst MAC: every 2-bit flip and every single-byte value of every authorised MAC x eliciting frames x 4 server addresses", product(&dims), |i| {
+                let d = unrank(i, &dims);
+                let (k, c, s) = &combos[d[1] as usize];
+                elicit(*k, &dm2[d[0] as usize], c, s)
+            });
+            // 2-bit-flip neighbourhood of every handled IPv4 address and every byte value of every
+            // handled address as destination / ARP target / ND target
+            let mut dst2: Vec<Ip> = Vec::new();
+            for s in cfg.self_ips.iter().chain([srv4b(), srv6b()].iter()) {
+                if s.is_v4() {
+                    for a in 0..32 {
+                        for b in a + 1..32 {
+                            dst2.push(s.flip_bit(a).flip_bit(b));
+                        }
+                    }
+                }
+                let nb = s.nbits() / 8;
+                for pos in 0..nb {
+                    for v in 0..=255u8 {
+                        let mut by = s.bytes();
+                        by[pos] = v;
+                        dst2.push(if s.is_v4() { Ip::V4([by[0], by[1], by[2], by[3]]) } else {
+                            let mut a = [0u8; 16];
+                            a.copy_from_slice(&by);
+                            Ip::V6(a)
+                        });
+                    }
+                }
+            }
+            let mut pairs2: Vec<(Kind, Ip, Ip)> = Vec::new();
+            for d in &dst2 {
+                let s = if d.is_v4() { cli4() } else { cli6() };
+                for k in kinds_for(!d.is_v4()) {
+                    pairs2.push((k, s, *d));
+                }
+            }
+            let dmacs2: [Mac; 2] = [cfg.mac, [0xff; 6]];
+            let dims = [pairs2.len() as u64, 2];
+            sweep_frames(rep, cfg, &format!("dst-ip-2flips-{}", tag), "destination IP / ARP target / ND target: every 2-bit flip of every handled IPv4 address, every single-byte value of every handled address x eliciting frames x {own MAC, broadcast}", product(&dims), |i| {
+                let d = unrank(i, &dims);
+                let (k, s, t) = &pairs2[d[0] as usize];
+                elicit(*k, &dmacs2[d[1] as usize], s, t)
+            });
+        }
         // (b) EtherType: all 65536 values over three inner payloads
         let inner: Vec<Vec<u8>> = vec![
             elicit(Kind::Arp, &MAC_SRV, &cli4(), &srv4())[14..].to_vec(),
